@@ -17,6 +17,11 @@ func c18Composite(c *Ctx, env *cssEnv) {
 	R := c.R
 	e := csslang.NewEnv(env.A)
 	in := csslang.NewInterp(e, c.P.CSS, env.vars)
+	for name, m := range cssMembers(c) {
+		if m.verified {
+			in.Members[name] = m.strIdx
+		}
+	}
 	names := in.HandlerNames()
 	registered := c18RegisteredHandlers(c)
 	nExact, nInexact := 0, 0
